@@ -3,6 +3,7 @@
    commit outcome), for every interleaving of any number of transactions. *)
 From Coq Require Import List ZArith.
 From Verif Require Import Mvcc MvccProofs.
+From Verif Require SideStore.
 Import ListNotations.
 
 (* Between its begin and its commit, everything a transaction sees depends only on its own operations: two
@@ -68,3 +69,20 @@ Example C06_nonvacuous :
   snd (mstep s (TCommit 1 true)) = POk false /\ dget 0 (m_cur s) = Some 10%Z /\
   snd (mstep s (TRead 1 0 None)) = PVal (Some 20%Z).
 Proof. vm_compute. repeat split. Qed.
+
+(* "a discarded transaction leaves no trace" fails for a store that is written outside the transaction: the pinned
+   create registers the document with the access-control engine at once, so after a discard the same document can
+   never be created again (finding F62, witness in the transaction engine); deferring the registration to the commit
+   restores the statement *)
+Theorem C06_eager_side_store_refuted : forall w d, SideStore.mem d (SideStore.registered w) = false ->
+  let '(w1, t1, ok1) := SideStore.create true w SideStore.empty d in
+  ok1 = true /\ SideStore.mem d (SideStore.docs (SideStore.discard w1 t1)) = SideStore.mem d (SideStore.docs w) /\
+  SideStore.discard w1 t1 <> w /\ snd (SideStore.create true (SideStore.discard w1 t1) SideStore.empty d) = false.
+Proof. exact SideStore.eager_registration_refuted. Qed.
+Print Assumptions C06_eager_side_store_refuted.
+
+Theorem C06_deferred_side_store_no_trace : forall w d, SideStore.mem d (SideStore.registered w) = false ->
+  let '(w1, t1, ok1) := SideStore.create false w SideStore.empty d in
+  ok1 = true /\ SideStore.discard w1 t1 = w /\ snd (SideStore.create false (SideStore.discard w1 t1) SideStore.empty d) = true.
+Proof. exact SideStore.deferred_registration_discard_no_trace. Qed.
+Print Assumptions C06_deferred_side_store_no_trace.
